@@ -51,7 +51,40 @@ def checkDeploy {T : Type} [DecidableEq T] (t : T) (L : Leaves) (f : RFault) (od
   clause (!L.load && (o.err || o.inv != .loadError)) "load-failure-not-reported" ++
   clause (L.load && constraintsUnmet L && (o.err || o.inv != .constraintsFailed)) "unmet-constraint-not-reported" ++
   clause (admissible L && f == .none &&
-      (o.err || o.od != some (some t) || o.inv != .none || !o.writes.contains .update)) "valid-not-rolled-out"
+      (o.err || o.od != some (some t) || o.inv != .none || !o.writes.contains .update)) "valid-not-rolled-out" ++
+  -- "... always results in an ObjectDeployment template equal to a fresh render of the new spec":
+  -- whenever Deploy reports success (nil, so the caller records the spec as rolled out) — under
+  -- ANY API fault or interleaving — what is stored is the fresh render, written by an Update
+  clause (admissible L && !o.err && (o.od != some (some t) || !o.writes.contains .update))
+    "nil-but-template-not-fresh" ++
+  -- third-party interleavings are no API errors: below the retry budget Deploy succeeds
+  clause (admissible L && f.conflicts < retrySteps && f == .conflict f.conflicts && o.err)
+    "conflict-below-budget-not-retried"
+
+/-- Observed annotations and labels of the stored ObjectDeployment. -/
+structure MObs where
+  ann : KV
+  lab : KV
+  deriving DecidableEq, Repr
+
+/-- "… and annotations / labels are the merge": when `Deploy` of an admissible package reports
+success, the stored ObjectDeployment carries every annotation (`dAnn`, except the derived change
+cause) and label (`dLab`) of the desired object, every annotation / label `landed` that third
+parties wrote while `Deploy` ran, and every annotation / label it had before (`pre`) under keys
+that neither the package nor those third parties wrote. -/
+def checkMeta {T : Type} (L : Leaves) (dAnn dLab : KV) (landed : List String) (pre : MObs)
+    (o : DObs T) (m : MObs) : List String :=
+  let ok := admissible L && !o.err
+  clause (ok && dAnn.any (fun kv => kv.1 != "cc" && m.ann.lookup kv.1 != dAnn.lookup kv.1))
+    "annotations-not-merged" ++
+  clause (ok && dLab.any (fun kv => m.lab.lookup kv.1 != dLab.lookup kv.1)) "labels-not-merged" ++
+  clause (ok && landed.any (fun k => m.ann.lookup k != some "x" || m.lab.lookup k != some "x"))
+    "third-party-metadata-lost" ++
+  clause (ok && (pre.ann.any (fun kv => kv.1 != "cc" && (dAnn.lookup kv.1).isNone && !landed.contains kv.1 &&
+                    m.ann.lookup kv.1 != pre.ann.lookup kv.1) ||
+                 pre.lab.any (fun kv => (dLab.lookup kv.1).isNone && !landed.contains kv.1 &&
+                    m.lab.lookup kv.1 != pre.lab.lookup kv.1)))
+    "prior-metadata-lost"
 
 /-- What the harness reports after one reconcile pass (persisted state of the API + calls made). -/
 structure PObs (H T : Type) where
@@ -91,6 +124,9 @@ def checkStep {H T : Type} [DecidableEq H] [DecidableEq T] (hash : Spec → H) (
       (o.od != some (some (render spec)) || o.hash != some (hash spec) || !o.writes.contains .update))
     "changed-spec-not-fresh" ++
   clause (strong && admissible L && o.od != some (some (render spec))) "stale-template" ++
+  -- a pass that records the hash of an admissible spec (so that it is never rendered again) has
+  -- left the fresh render in the ObjectDeployment — under ANY fault or interleaving of the pass
+  clause (o.hash != ph && admissible L && o.od != some (some (render spec))) "recorded-but-template-not-fresh" ++
   clause (o.hash != ph &&
       (o.hash != some (hash spec) || o.pulls != 1 || F.pkgGet || F.odGet0 || F.pull || F.env || F.odGet2 ||
         F.status))
